@@ -143,7 +143,13 @@ func NewSnapshot() (*Snapshot, error) {
 		return nil, fmt.Errorf("rsync: %s %v", r.Stderr, r.Err)
 	}
 	// go.work would pull in ./tools; we build the main module alone.
-	r = Run(Cmd{Dir: s.Src, Args: []string{"go", "build", "-tags", "verif", "-o", s.CLI, "./cmd/kessoku"}, Timeout: 10 * time.Minute})
+	buildArgs := []string{"go", "build", "-tags", "verif"}
+	if os.Getenv("VERIF_COVER") != "" {
+		// development aid: statement coverage of the CLI under the generated inputs (GOCOVERDIR)
+		buildArgs = append(buildArgs, "-cover", "-coverpkg=github.com/mazrean/kessoku/...")
+	}
+	buildArgs = append(buildArgs, "-o", s.CLI, "./cmd/kessoku")
+	r = Run(Cmd{Dir: s.Src, Args: buildArgs, Timeout: 10 * time.Minute})
 	if r.Exit != 0 {
 		s.Close()
 		return nil, fmt.Errorf("build CLI from snapshot failed:\n%s%s %v", r.Stdout, r.Stderr, r.Err)
